@@ -12,6 +12,7 @@ import (
 	"os"
 	"os/exec"
 	"path/filepath"
+	"runtime/debug"
 	"sync"
 	"testing"
 	"time"
@@ -247,6 +248,9 @@ type Cfg struct {
 	// library before (lazily built tables, once-initialised state are in the
 	// condition the very first concurrent users of a process find them in)
 	Fresh bool `json:"fresh,omitempty"`
+	// MemLimitMB > 0: the run happens under a soft memory limit of that many
+	// MiB (debug.SetMemoryLimit, what GOMEMLIMIT sets)
+	MemLimitMB int `json:"mem_limit_mb,omitempty"`
 }
 
 // InputSpec describes an input.
@@ -474,6 +478,10 @@ func Execute(t *testing.T, c *Cfg, sim bool) *Outcome {
 		}
 	}
 	out := &Outcome{}
+	if c.MemLimitMB > 0 {
+		old := debug.SetMemoryLimit(int64(c.MemLimitMB) << 20)
+		defer debug.SetMemoryLimit(old)
+	}
 	var mu sync.Mutex
 	got := make([][]Res, len(c.Tasks))
 	for i := range got {
